@@ -187,10 +187,36 @@ impl<'tcx> Dumper<'tcx> {
                 items.push(("k", jstr("tuple")));
                 let a: Vec<String> = ts.iter().map(|x| self.ty(x).to_string()).collect();
                 items.push(("args", jarr(&a)));
+                if !t.has_non_region_param() && !t.has_aliases() {
+                    if let Ok(l) = self.tcx.layout_of(TypingEnv::fully_monomorphized().as_query_input(t)) {
+                        items.push(("size", l.size.bytes().to_string()));
+                        let offs: Vec<String> =
+                            (0..ts.len()).map(|i| l.fields.offset(i).bytes().to_string()).collect();
+                        items.push(("offsets", jarr(&offs)));
+                        let mut sizes: Vec<String> = Vec::new();
+                        for x in ts.iter() {
+                            let sz = self
+                                .tcx
+                                .layout_of(TypingEnv::fully_monomorphized().as_query_input(x))
+                                .map(|fl| fl.size.bytes())
+                                .unwrap_or(0);
+                            sizes.push(sz.to_string());
+                        }
+                        items.push(("sizes", jarr(&sizes)));
+                    }
+                }
             }
             ty::Array(inner, _) => {
                 items.push(("k", jstr("array")));
                 items.push(("inner", self.ty(*inner).to_string()));
+                if !t.has_non_region_param() && !t.has_aliases() {
+                    if let Ok(l) = self.tcx.layout_of(TypingEnv::fully_monomorphized().as_query_input(t)) {
+                        items.push(("size", l.size.bytes().to_string()));
+                    }
+                    if let Ok(el) = self.tcx.layout_of(TypingEnv::fully_monomorphized().as_query_input(*inner)) {
+                        items.push(("esize", el.size.bytes().to_string()));
+                    }
+                }
             }
             ty::Slice(inner) => {
                 items.push(("k", jstr("slice")));
@@ -266,6 +292,12 @@ impl<'tcx> Dumper<'tcx> {
         if let Some(l) = &layout {
             items.push(("size", l.size.bytes().to_string()));
             items.push(("align", l.align.abi.bytes().to_string()));
+            if let rustc_abi::Variants::Multiple { tag, tag_encoding, tag_field, .. } = &l.variants {
+                if let rustc_abi::TagEncoding::Direct = tag_encoding {
+                    items.push(("tag_off", l.fields.offset(tag_field.as_usize()).bytes().to_string()));
+                    items.push(("tag_size", tag.size(&tcx).bytes().to_string()));
+                }
+            }
         }
         let mut variants = Vec::new();
         let discrs: Vec<(rustc_abi::VariantIdx, u128)> = if def.is_enum() {
@@ -473,6 +505,23 @@ impl<'tcx> Dumper<'tcx> {
                     let bytes = a.inspect_with_uninit_and_ptr_outside_interpreter(off..len);
                     let hex: String = bytes.iter().map(|b| format!("{:02x}", b)).collect();
                     items.push(("bytes", jstr(&hex)));
+                    // pointers stored in the constant (function pointers of a table, references to other constants)
+                    let mut relocs: Vec<String> = Vec::new();
+                    for (roff, prov) in a.provenance().ptrs().iter() {
+                        let ro = roff.bytes() as usize;
+                        if ro < off {
+                            continue;
+                        }
+                        if let rustc_middle::mir::interpret::GlobalAlloc::Function { instance, .. } =
+                            tcx.global_alloc(prov.alloc_id())
+                        {
+                            let f = self.callee(owner, instance.def_id(), instance.args);
+                            relocs.push(jobj(&[("off", (ro - off).to_string()), ("fn", f)]));
+                        }
+                    }
+                    if !relocs.is_empty() {
+                        items.push(("relocs", jarr(&relocs)));
+                    }
                 }
             }
             Ok(ConstValue::ZeroSized) => {
@@ -491,6 +540,25 @@ impl<'tcx> Dumper<'tcx> {
                         );
                         let hex: String = bytes.iter().map(|b| format!("{:02x}", b)).collect();
                         items.push(("ptr_bytes", jstr(&hex)));
+                    } else if let rustc_middle::mir::interpret::GlobalAlloc::Static(sdid) =
+                        tcx.global_alloc(prov.alloc_id())
+                    {
+                        // a reference to an immutable `static`: its initializer is a compile-time constant
+                        let sty = tcx.type_of(sdid).instantiate_identity().skip_norm_wip();
+                        let frozen = sty.is_freeze(tcx, TypingEnv::fully_monomorphized());
+                        if !tcx.is_mutable_static(sdid) && !tcx.is_foreign_item(sdid) && frozen {
+                            if let Ok(alloc) = tcx.eval_static_initializer(sdid) {
+                                let a = alloc.inner();
+                                let start = off.bytes() as usize;
+                                if start <= a.len() && a.provenance().ptrs().is_empty() {
+                                    let bytes =
+                                        a.inspect_with_uninit_and_ptr_outside_interpreter(start..a.len());
+                                    let hex: String = bytes.iter().map(|b| format!("{:02x}", b)).collect();
+                                    items.push(("ptr_bytes", jstr(&hex)));
+                                    items.push(("static", jstr(&self.path(sdid))));
+                                }
+                            }
+                        }
                     }
                 }
             }
@@ -615,6 +683,25 @@ impl<'tcx> Dumper<'tcx> {
         }
         let _ = ldid;
         items.push(("argc", body.arg_count.to_string()));
+        // names of the type parameters in scope (parents first), in the order a caller's type arguments are listed
+        {
+            let mut names: Vec<String> = Vec::new();
+            let mut stack = Vec::new();
+            let mut cur = Some(did);
+            while let Some(d) = cur {
+                let g = tcx.generics_of(d);
+                stack.push(g);
+                cur = g.parent;
+            }
+            for g in stack.iter().rev() {
+                for p in g.own_params.iter() {
+                    if let ty::GenericParamDefKind::Type { .. } = p.kind {
+                        names.push(jstr(p.name.as_str()));
+                    }
+                }
+            }
+            items.push(("generics", jarr(&names)));
+        }
         let mut locals = Vec::new();
         for (_l, d) in body.local_decls.iter_enumerated() {
             locals.push(jobj(&[
